@@ -10,7 +10,8 @@ props = [prop]
 for a in sys.argv[3:]:
     if a.startswith('--props'):
         props = a.split('=')[1].split(',')
-src = f'/tmp/seed_out/{prop}/{k}'
+src = f"{os.environ.get('SEED_SRC', '/tmp/seed_out')}/{prop}/{k}"
+tag = os.environ.get('SEED_TAG', '')
 wt = os.environ.get('WT', f'/tmp/wt_eval_{prop}')
 head = subprocess.check_output(['git', '-C', '/repo', 'rev-parse', 'HEAD'], text=True).strip()
 if not os.path.isdir(wt):
@@ -41,9 +42,9 @@ ok_demo = (rc_w != 0 and rc_r == 0)
 real_regress = [l for l in out_t.splitlines() if l.startswith(('REGRESSED', 'MISSING')) and 'test_optimizers_rosenbrock' not in l]
 ok_tests = (rc_t == 0) or not real_regress
 detected = any(c['exit'] == 1 and any(l.startswith('VIOLATION') for l in c['lines']) for c in checks.values())
-print(f'{prop}-{k}: demo patched={rc_w} clean={rc_r} ({"OK" if ok_demo else "BAD"}); tests {"pass" if ok_tests else "FAIL"} [{out_t.strip().splitlines()[0] if out_t.strip() else ""}]; detected={detected} {checks}')
+print(f'{prop}-{tag}{k}: demo patched={rc_w} clean={rc_r} ({"OK" if ok_demo else "BAD"}); tests {"pass" if ok_tests else "FAIL"} [{out_t.strip().splitlines()[0] if out_t.strip() else ""}]; detected={detected} {checks}')
 if ok_demo and ok_tests:
-    dst = f'/verif/seeded/{prop}-{k}'
+    dst = f'/verif/seeded/{prop}-{tag}{k}'
     os.makedirs(dst, exist_ok=True)
     for f in ('patch.diff', 'demo.py'):
         shutil.copy(f'{src}/{f}', dst)
